@@ -39,6 +39,17 @@ class Ty:
 INT = Ty('int'); BOOL = Ty('bool'); REAL = Ty('real'); STR = Ty('str'); NONE = Ty('none'); ANY = Ty('any')
 
 _SORT_NAMES = set()
+_VALUE_CLASSES = {}     # class name -> named tuple type
+VALUE_FIELDS = {}       # class name -> [field names]
+
+
+def declare_value_class(name, fields):
+    """dataclass-like immutable record: modelled as a named tuple datatype"""
+    t = Ty('tuple', [parse_type(v) for v in fields.values()], name)
+    _VALUE_CLASSES[name] = t
+    VALUE_FIELDS[name] = list(fields)
+    return t
+
 _OBJ_NAMES = set()
 
 
@@ -99,6 +110,8 @@ def parse_type(s):
             return Ty('tuple', args)
         if name in _SORT_NAMES:
             return Ty('sort', (), name)
+        if name in _VALUE_CLASSES:
+            return _VALUE_CLASSES[name]
         if name in _OBJ_NAMES:
             return Ty('obj', (), name)
         raise ValueError('unknown type %r in %r' % (name, s))
@@ -164,7 +177,7 @@ def sort_of(t):
     elif k == 'map':
         s = z3.ArraySort(sort_of(t.args[0]), sort_of(t.args[1]))
     elif k == 'tuple':
-        d = z3.Datatype('T_' + '_'.join(_tyname(a) for a in t.args) + '_%d' % len(t.args))
+        d = z3.Datatype(('R_%s_' % t.name if t.name else 'T_') + '_'.join(_tyname(a) for a in t.args) + '_%d' % len(t.args))
         d.declare('mk', *[('f%d' % i, sort_of(a)) for i, a in enumerate(t.args)])
         s = d.create()
     elif k == 'opt':
@@ -204,14 +217,18 @@ NONEV = NoneV()
 
 
 class TupV:
-    """A Python tuple with statically known arity (items are values)."""
-    __slots__ = ('items',)
+    """A Python tuple with statically known arity (items are values); `cls` is set for
+    instances of value classes (records)."""
+    __slots__ = ('items', 'cls')
 
-    def __init__(self, items):
+    def __init__(self, items, cls=None):
         self.items = list(items)
+        self.cls = cls
 
     @property
     def t(self):
+        if self.cls is not None:
+            return _VALUE_CLASSES[self.cls]
         return Ty('tuple', [type_of(x) for x in self.items])
 
     def __repr__(self):
